@@ -14,7 +14,7 @@ Not decided: that the store returns what it was asked for (trusted interface).
 """
 import re
 
-from .. import mir
+from .. import mir, roles
 from ..common import CallGraph, call_matches, is_derive, site_in_derive, with_closures, bool_return_leaves
 from ..engine import Result, ok, finding, assumption, where
 from ..facts import BrokenCheck
@@ -383,7 +383,8 @@ def s_fabricate(F, res, FS=None):
 
 
 def nofilter(F, res):
-    f = F.fn("tx3_cardano::compile::compile_inputs")
+    tbp = roles.builder_of(F, "tx3_cardano", "::TransactionBody")
+    f = F.fns[roles.feeder_of(F, tbp, "::TransactionBody", "inputs")]
     bad = []
     for b in with_closures(F, f):
         for bi, t in mir.calls(b):
